@@ -188,9 +188,11 @@ fn run_mirror(case: u64, rng: &mut Rng, ev: &mut Ev) {
     let rg = *rng.pick(&[Regime::Int, Regime::Dyadic, Regime::Short, Regime::Full]);
     let m = 1 + rng.below(6);
     let mut p = gen::pred(rng, m, n, rg);
-    let scale = *rng.pick(&[1.0, 1.0, 1e-3, 1e3, 1e-6]);
+    // 15 %: the polytope is translated 3e6 .. 8e6 away from the origin and the start points with it
+    let shift = if rng.chance(0.15) { Some(gen::far_shift(rng, n)) } else { None };
+    let scale = if shift.is_some() { *rng.pick(&[1.0, 64.0, 1024.0]) } else { *rng.pick(&[1.0, 1.0, 1e-3, 1e3, 1e-6]) };
     for i in 0..m {
-        if rng.chance(0.3) {
+        if rng.chance(if shift.is_some() { 0.6 } else { 0.3 }) {
             for v in p.mat[i].iter_mut() {
                 *v *= scale;
             }
@@ -209,7 +211,30 @@ fn run_mirror(case: u64, rng: &mut Rng, ev: &mut Ev) {
     }
     let npts = 1 + rng.below(4);
     let far = rng.chance(0.3);
-    let starts: Vec<Vec<f64>> = (0..n).map(|_| (0..npts).map(|_| rng.gauss() * if far { 1e3 } else { 3.0 }).collect()).collect();
+    if let Some(d) = &shift {
+        p.shift_predicate(d);
+    }
+    let mut cols: Vec<Vec<f64>> = (0..npts)
+        .map(|_| (0..n).map(|j| shift.as_ref().map_or(0.0, |d| d[j]) + rng.gauss() * if far { 1e3 } else { 3.0 }).collect())
+        .collect();
+    if shift.is_some() {
+        // start points exactly on a far hyperplane: the heuristic then moves them by ~1e-10, where the
+        // rounding of the normalized and of the raw rows differs
+        for c in cols.iter_mut() {
+            if rng.chance(0.6) {
+                let i = rng.below(m);
+                if let Some(mut x) = gen::on_hyperplane(rng, &p.mat[i], p.bias[i], 1).pop() {
+                    // ... or a few ulps off it
+                    if rng.chance(0.7) {
+                        let j = rng.below(n);
+                        x[j] += if rng.chance(0.5) { 1.0 } else { -1.0 } * 2f64.powi(-(18 + rng.below(9) as i32));
+                    }
+                    *c = x;
+                }
+            }
+        }
+    }
+    let starts: Vec<Vec<f64>> = (0..n).map(|j| (0..npts).map(|k| cols[k][j]).collect()).collect();
     let iters = 1 + rng.below(20);
     ev.evaluations += 1;
     let desc = json!({"mirror_points": {"polytope": p.json(), "starts_columns": starts, "n_iterations": iters}});
@@ -245,6 +270,18 @@ fn run_mirror(case: u64, rng: &mut Rng, ev: &mut Ev) {
                         );
                         return;
                     }
+                }
+                // the heuristic and the documented containment test of the library itself must agree:
+                // phase_one asserts it (debug builds) and caches the point as a witness
+                let lp = p.to_poly();
+                if !lp.contains(&gen::arr1(&x)) {
+                    ev.violation(
+                        case,
+                        "c05:mirror_points:fails-contains",
+                        "",
+                        json!({"case": desc, "point": x, "problem": "a point returned by mirror_points does not pass Polytope::contains of the same polytope (phase_one's debug assertion / cached witness)"}),
+                    );
+                    return;
                 }
                 ev.inc("mirror_points_verified");
             }
